@@ -28,7 +28,7 @@ MANIFEST = dict(
          "endpoint x namespace spelling): observed allow/deny must equal the model's verdict, and the property oracle classifies "
          "every request served outside the permitted namespaces.",
     note="35 console data endpoints apply no namespace privilege (MCP server/toolspec, the v1 routes that re-use the OpenAPI "
-         "handlers, v1 config history/downloads, the v2 config download, the transfer export/import): too many call sites for a "
+         "handlers, v1 config history and download-by-keys, the MCP downloads, the transfer export/import): too many call sites for a "
          "small repair; recorded in known_findings.json, any other unguarded endpoint is a VIOLATION. Endpoints whose request "
          "cannot name a namespace (MCP server by id, imports needing an archive) are classified statically only. How a handler "
          "derives the namespace from its parameters (tenant/namespaceId, omitted -> default or all) is harness glue validated by "
